@@ -150,14 +150,14 @@ def jobs(tier, seed):
             c['autos'] = mask
             oo = {'players': True, 'show': (None, True)}
             oo.update(o)
-            out.append({'family': fam, 'cfg': c, 'opts': oo, 'state_cap': 200000, 'time_cap': 20})
+            out.append({'family': fam, 'cfg': c, 'opts': oo, 'state_cap': 200000, 'time_cap': 300})
     for fam, cfg, o in quick_extra_cfgs():
         for mask in reduced_masks():
             c = dict(cfg)
             c['autos'] = mask
             oo = {'players': False, 'show': (None,)}
             oo.update(o)
-            out.append({'family': fam, 'cfg': c, 'opts': oo, 'state_cap': 200000, 'time_cap': 60, 'dev_bound': 2})
+            out.append({'family': fam, 'cfg': c, 'opts': oo, 'state_cap': 200000, 'time_cap': 400, 'dev_bound': 2})
     return out
 
 
